@@ -119,10 +119,16 @@ def run_connect(entries, reach, variant, crash_at):
                             R.METHOD_RETURN, 1, {'reply_serial': s}, 's',
                             [':1.42']))
                     else:
+                        # the refusal with a text, without any body, or with
+                        # a body that does not start with a string
+                        sig, body = {'hello-error': ('s', ['no']),
+                                     'hello-error-bare': ('', []),
+                                     'hello-error-nonstr': ('us', [7, 'no']),
+                                     }[st[1]]
                         proto.dataReceived(R.encode_message(
                             R.ERROR, 1, {'reply_serial': s, 'error_name':
                                          'org.freedesktop.DBus.Error.Failed'},
-                            's', ['no']))
+                            sig, body))
             done_all = (crash_at is None or crash_at >= len(steps))
             if (crash_at is not None and crash_at <= len(steps)) or \
                     transport.disconnecting:
@@ -181,7 +187,7 @@ def check_connect(res, entries, reach, variant, crash_at):
         return
     results = o['results']
     concluded = first is None or o.get('lost') or \
-        o.get('hello_succeeded') or variant == 'hello-error' and \
+        o.get('hello_succeeded') or variant.startswith('hello-error') and \
         o.get('steps_done') == len(conversation_steps(
             o['connected'] == 'unix', variant))
     if not concluded:
@@ -367,7 +373,8 @@ def _task_connect(task):
                 check_connect(res, entries, reach, 'hello-ok', None)
                 continue
             unix = usable[first] in ('unix', 'abstract')
-            for variant in ('hello-ok', 'hello-error', 'refused'):
+            for variant in ('hello-ok', 'hello-error', 'hello-error-bare',
+                            'hello-error-nonstr', 'refused'):
                 n = len(conversation_steps(unix, variant))
                 for crash_at in list(range(0, n + 1)) + [None]:
                     check_connect(res, entries, reach, variant, crash_at)
@@ -403,7 +410,9 @@ class LossScenario(explore.Scenario):
               'pcbE', 'pcbK', 'pcbI', 'pcbI2', 'pcancelE', 'dropK',
               # the same callable registered a second time / one more
               # registration of it cancelled
-              'cbA2', 'cancelA2', 'pcbE2', 'pcancelE2']
+              'cbA2', 'cancelA2', 'pcbE2', 'pcancelE2',
+              # call1 answered by an error reply that has no body
+              'error1']
 
     def build(self):
         from txdbus import interface as I
@@ -416,6 +425,7 @@ class LossScenario(explore.Scenario):
         w.call_serial = {}
         w.deadline = {}
         w.completed = set()
+        w.errored = set()
         w.cbs = {}             # callback name -> list of invocations
         w.active_cbs = set()
         w.regs = {}            # callback name -> live registrations
@@ -444,6 +454,8 @@ class LossScenario(explore.Scenario):
             if e == 'reply0' and 'call0' not in w.used:
                 continue
             if e == 'cancelA' and 'cbA' not in w.used:
+                continue
+            if e == 'error1' and 'call1' not in w.used:
                 continue
             if e == 'cbA2' and 'cbA' not in w.used:
                 continue
@@ -495,6 +507,12 @@ class LossScenario(explore.Scenario):
                     R.METHOD_RETURN, 500,
                     {'reply_serial': w.call_serial['call0']}, 's', ['r']))
                 w.completed.add('call0')
+            elif e == 'error1':
+                conn.dataReceived(R.encode_message(
+                    R.ERROR, 501,
+                    {'reply_serial': w.call_serial['call1'],
+                     'error_name': 'org.ex.Refused'}))
+                w.errored.add('call1')
             elif e in ('cbA', 'cbB'):
                 sink = w.cbs.setdefault(e, [])
 
@@ -602,7 +620,13 @@ class LossScenario(explore.Scenario):
                          'running the clock out after the loss raised %r'
                          % (ex,)))
         for name, sink in w.calls.items():
-            if name in w.completed:
+            if name in w.errored:
+                if sink != [('err', 'RemoteError')]:
+                    viol.append(('%s/loss/errored-call-disturbed' % PROP,
+                                 '%s had been answered with an error reply '
+                                 'before the loss; its results are %r'
+                                 % (name, sink)))
+            elif name in w.completed:
                 if sink != [('ok', 'str')]:
                     viol.append(('%s/loss/completed-call-disturbed' % PROP,
                                  '%s had completed before the loss; '
@@ -697,7 +721,7 @@ def run(ctx):
         'A (crash-point enumeration): every address list of <= 3 entries '
         'over %r (and the empty list) x every reachability vector; on the '
         'first reachable endpoint a scripted server runs the handshake and '
-        'Hello (success / error reply / all mechanisms refused) and the '
+        'Hello (success / error reply with a text, without a body, with a non-string first value / all mechanisms refused) and the '
         'transport closes after 0..n server steps or not at all; endpoints '
         'must be tried in order and none after the first reachable, and the '
         'Deferred must have fired exactly once at quiescence (connection '
@@ -729,8 +753,8 @@ def run(ctx):
         explore.explore(
             ctx, LossScenario,
             {'events': ['call0', 'call1', 'call2', 'reply0', 'cbA', 'cbB',
-                        'cancelA', 'cbA2', 'cancelA2']},
-            max_depth=14, label='loss: calls and callbacks, to the fixpoint')
+                        'cancelA', 'cbA2', 'cancelA2', 'error1']},
+            max_depth=15, label='loss: calls and callbacks, to the fixpoint')
     else:
         explore.explore(ctx, LossScenario, {'events': ALL}, max_depth=7,
                         label='loss: all events, depth 7',
@@ -744,8 +768,8 @@ def run(ctx):
         explore.explore(
             ctx, LossScenario,
             {'events': ['call0', 'call1', 'call2', 'reply0', 'cbA', 'cbB',
-                        'cancelA', 'cbA2', 'cancelA2']},
-            max_depth=14, label='loss: calls and callbacks, to the fixpoint')
+                        'cancelA', 'cbA2', 'cancelA2', 'error1']},
+            max_depth=15, label='loss: calls and callbacks, to the fixpoint')
     ctx.bounds = {'address_entries': 3}
 
 
